@@ -109,6 +109,25 @@ func c07Tree(r *rand.Rand, k int) (*Node, string) {
 		}
 		return t, "self-recursive"
 	}
+	if k%23 == 5 || k%23 == 17 {
+		// operators over a caller-supplied list: registered operators (declared stateless or not) and the built-in ones.
+		// The calls bind the list from the goroutine's buffer, refilled in place with other contents of the same length.
+		sum := func() *Node { return Op(g0pick(r, "csum", "ssum", "ssum"), TInt, Var("li0", TIList)) }
+		var t *Node
+		switch r.Intn(5) {
+		case 0:
+			t = Op(">", TBool, sum(), Var("i0", TInt))
+		case 1:
+			t = Op("+", TInt, sum(), Var("i0", TInt), sum())
+		case 2:
+			t = Op("or", TBool, Op("in", TBool, Var("i0", TInt), Var("li0", TIList)), Op(">", TBool, sum(), Lit(int64(5))), Var("b0", TBool))
+		case 3:
+			t = If(Op("overlap", TBool, Var("li0", TIList), Lit([]int64{1, 2, 3})), sum(), Op("-", TInt, sum(), Var("i0", TInt)))
+		default:
+			t = Op("and", TBool, Var("b0", TBool), Op("=", TBool, sum(), Op("csum", TInt, Var("li0", TIList))))
+		}
+		return t, "list-operators"
+	}
 	switch k % 9 {
 	case 7, 8:
 		// large unsorted list constants on either side of the scan/hash switch, against list variables
@@ -207,6 +226,18 @@ func c07Build(w *W, r *rand.Rand, k int) *c07Prog {
 		w.Inc("programs_event_mode")
 	}
 	bs := genBindings(r, tree, 6, 0.1)
+	if stratum == "list-operators" {
+		// lists of one length and different contents: every call of a goroutine refills the same buffer
+		n := 1 + r.Intn(6)
+		for i := range bs {
+			l := make([]int64, n)
+			for j := range l {
+				l[j] = int64(r.Intn(9) - 2)
+			}
+			bs[i].Vals["li0"] = l
+		}
+		w.Inc("programs_list_operators")
+	}
 	if stratum == "big-list-constants" {
 		// list variables long enough to reach the hashing path with the constant
 		for i := range bs {
@@ -342,8 +373,109 @@ func pooledVals(bufs map[string]interface{}, vals map[string]interface{}, refill
 	return out
 }
 
+// Values of caller-defined types as operands of eq/ne: a record or a fixed-size array whose interface-typed part holds
+// something comparable in one call and a slice or map in the next.
+type c07Rec struct {
+	ID    int
+	Extra interface{}
+}
+type c07Pair [2]interface{}
+
+func dynComparable(v interface{}) (ok bool) {
+	defer func() {
+		if recover() != nil {
+			ok = false
+		}
+	}()
+	_ = v == v
+	return true
+}
+
+// c07ForeignEq: a history of eq/ne calls over such values on long-lived programs. What a call returns depends on its own
+// operands only: an error when one of them cannot be compared, else plain Go equality - whatever was compared before,
+// on this program or another one. The oracle is Go's own ==, not an evaluation by the engine.
+func c07ForeignEq(w *W, r *rand.Rand) {
+	vals := []interface{}{
+		c07Rec{1, nil}, c07Rec{1, "x"}, c07Rec{1, []int{1}}, c07Rec{2, map[string]int{"a": 1}}, c07Rec{2, int64(5)}, c07Rec{1, "x"},
+		c07Pair{int64(1), "a"}, c07Pair{[]int64{1}, "a"}, c07Pair{int64(1), "a"}, c07Pair{nil, func() {}}, c07Pair{nil, nil},
+		int64(7), "x", true, nil,
+	}
+	type prog struct {
+		src  string
+		e    *eval.Expr
+		cc   *eval.Config
+		n    int
+		isNe bool
+	}
+	var progs []prog
+	for _, p := range []prog{{src: "(eq a b)", n: 2}, {src: "(ne a b)", n: 2, isNe: true}, {src: "(= a b c)", n: 3}, {src: "(!= a b)", n: 2, isNe: true}, {src: "(not (eq a b))", n: 2, isNe: true}} {
+		cc := buildConfig(CaseCfg{Opts: OptSet(r.Intn(16)), VarNames: []string{"a", "b", "c"}}, nil)
+		e, co := compileGuard(cc, p.src)
+		if co.Panic != nil || co.Err != nil {
+			w.Fail("foreign-eq/compile", "%s does not compile: %s", p.src, co)
+			return
+		}
+		p.e, p.cc = e, cc
+		progs = append(progs, p)
+	}
+	for step := 0; step < 60; step++ {
+		p := progs[r.Intn(len(progs))]
+		ops := make([]interface{}, 3)
+		for i := range ops {
+			ops[i] = vals[r.Intn(len(vals))]
+		}
+		if r.Intn(2) == 0 {
+			ops[1] = ops[0] // equal operands are the interesting half
+		}
+		ops = ops[:p.n]
+		wantErr := false
+		want := true
+		for _, o := range ops {
+			if !dynComparable(o) {
+				wantErr = true
+			}
+		}
+		if !wantErr {
+			for _, o := range ops[1:] {
+				if o != ops[0] {
+					want = false
+				}
+			}
+			if p.isNe {
+				want = !want
+			}
+		}
+		bind := map[string]interface{}{"a": ops[0], "b": ops[1]}
+		if p.n == 3 {
+			bind["c"] = ops[2]
+		}
+		kind := CallEval
+		if r.Intn(3) == 0 {
+			kind = CallTryEval
+		}
+		o, _ := callExpr(p.e, kind, &RecFetcher{Vals: bind, Keys: p.cc.VariableKeyMap}, nil, false)
+		w.Evals++
+		w.Inc("foreign_eq_calls")
+		switch {
+		case o.Panic != nil:
+			w.Fail("call-result-differs-from-isolated/foreign-eq", "%s panicked with a=%#v b=%#v: %v", p.src, ops[0], ops[1], o.Panic)
+			return
+		case wantErr != (o.Err != nil), !wantErr && o.V != want:
+			exp := fmt.Sprint(want)
+			if wantErr {
+				exp = "an error (an operand cannot be compared)"
+			}
+			w.Fail("call-result-differs-from-isolated/foreign-eq", "step %d of a history of eq/ne calls over values of caller-defined struct and array types: %s with operands %#v gives %s, in isolation it gives %s", step, p.src, ops, o, exp)
+			return
+		}
+	}
+}
+
 func c07Run(w *W, idx int, race bool) {
 	r := w.Rand(idx)
+	if !race && idx%8 == 3 {
+		c07ForeignEq(w, r)
+	}
 	concurrent := race || idx%4 != 0
 	var pool []*c07Prog
 	for k := 0; k < 4; k++ {
